@@ -32,6 +32,8 @@ def _case(draw, max_len):
     base = 'L' if case.get('exact') else 'F'
     l3 = draw(st.integers(1, max_len))
     case['s3'] = draw(gen.series(l3, l3, base, d)) if d > 1 else [[x] for x in draw(gen.series(l3, l3, base, 1))]
+    l4 = draw(st.integers(1, max_len))
+    case['s4'] = draw(gen.series(l4, l4, base, d)) if d > 1 else [[x] for x in draw(gen.series(l4, l4, base, 1))]
     m = min(len(case['s1']), len(case['s2']), l3)
     p = gen.psi4(case['psi'])
     case['psi_matrix'] = min(min(p), max(0, m - 1))
@@ -133,6 +135,23 @@ def run(case):
         got = [float(x) for x in got]
         if len(got) != 3 or not all(ref.close(g, x) for g, x in zip(got, expm)):
             res.fail('%s.distance_matrix:value' % eng, 'distance_matrix=%r reference=%r (container %s)' % (got, expm, cont))
+    # four series ordered by length, shortest first: the first pair is the smallest problem and the last pair the
+    # largest, so anything one pair leaves behind for the next (settings, buffers) is too small for the later pairs
+    S4 = sorted([s1, s2, s3, case.get('s4', s3)], key=len)
+    pairs4 = [(r, c) for r in range(4) for c in range(r + 1, 4)]
+    exp4 = [ref.ref_dtw(S4[r], S4[c], **mref) for r, c in pairs4]
+    for eng in ('py', 'c'):
+        data = [np.array(s, dtype=np.double) for s in S4]
+        got, exc = libcall(dtw_ndim.distance_matrix, data, ndim=d, compact=True, use_c=(eng == 'c'), parallel=False, **mkw)
+        if exc:
+            res.fail('%s.distance_matrix4:%s' % (eng, exc), 'raised')
+            continue
+        got = [float(x) for x in got]
+        if len(got) != 6 or not all(ref.close(g, x) for g, x in zip(got, exp4)):
+            k = next((i for i, (g, x) in enumerate(zip(got, exp4)) if not ref.close(g, x)), None)
+            res.fail('%s.distance_matrix4:value' % eng, 'four series of lengths %r: entry %r (pair %r) = %r, reference %r'
+                     % ([len(x) for x in S4], k, pairs4[k] if k is not None else None,
+                        got[k] if k is not None else got, exp4[k] if k is not None else exp4))
     # d = 1: the univariate routines on the flattened series
     if d == 1:
         f1, f2 = [x[0] for x in s1], [x[0] for x in s2]
